@@ -469,6 +469,8 @@ def sc_isin(n, m, c, c2, e):
 
 def sc_searchsorted(n, m, c, c2, e):
     B._start()
+    # searchsorted builds a NumPy array from x1's chunk sizes at build time (block offsets): x1's geometry is forked by value
+    n, c = sx.conc(n), sx.conc(c)
     sx.assume(c <= n)
     sx.assume(c2 <= m)
     sx.assume(e < m)
@@ -616,7 +618,7 @@ THOROUGH_ONLY = {f"{f}[2d]": (_sc_reduce2(f), lambda N: [("n", 1, 4), ("m", 1, 4
 # scenarios that state shapes / block geometry only (the values depend on NumPy's arithmetic): used in "tasks" mode (C12/C17)
 SHAPE_ONLY = {
     "isin": (sc_isin, lambda N: [("n", 1, N), ("m", 1, N), ("c", 1, N), ("c2", 1, N), ("e", 0, N)]),
-    "searchsorted": (sc_searchsorted, lambda N: [("n", 1, N), ("m", 1, N), ("c", 1, N), ("c2", 1, N), ("e", 0, N)]),
+    "searchsorted": (sc_searchsorted, lambda N: [("n", 1, 4), ("m", 1, 4), ("c", 1, 4), ("c2", 1, 4), ("e", 0, 0)]),
 }
 # not walked task by task under C12/C17 (rechunk geometry is C05/C14's subject and the walk does not fit the wall budget; two of the four
 # indexing kinds suffice for the block-shape question)
